@@ -31,7 +31,7 @@ import (
 // newWorldShared creates one more node of base's group: same scheme, shares, identities and
 // reference chain, its own store, network client and clock.
 func newWorldShared(base *World, me int, storeKind string) (*World, error) {
-	w := &World{Sch: base.Sch, Period: base.Period, Genesis: base.Genesis, Catchup: base.Catchup, Secret: base.Secret,
+	w := &World{FixedMe: true, Sch: base.Sch, Period: base.Period, Genesis: base.Genesis, Catchup: base.Catchup, Secret: base.Secret,
 		Privs: base.Privs, Epochs: base.Epochs, Me: me, ref: base.ref, Log: base.Log}
 	w.Clock = clock.NewFakeClockAt(base.Clock.Now())
 	w.CClock = &countingClock{FakeClock: w.Clock}
@@ -128,7 +128,7 @@ func (n *netRun) transition(rng *rand.Rand, first uint64) {
 		}
 	}
 	tt := b.Genesis + int64(first-1)*b.Period
-	ep, err := b.newEpoch(members, thr, tt, nil)
+	ep, err := b.newEpoch(members, thr, tt, nil, -1)
 	if err != nil {
 		panic(err)
 	}
